@@ -178,6 +178,46 @@ def show(e, depth=0):
     return '%s' % (e,)
 
 
+def _adt_of(ty):
+    t = ty
+    while t.startswith('&'):
+        t = t[1:].lstrip()
+        if t.startswith("'"):
+            t = t.split(' ', 1)[1] if ' ' in t else t
+        if t.startswith('mut '):
+            t = t[4:]
+    return t.split('<')[0]
+
+
+def _new_record(crate, path):
+    """`path` names a struct (one variant, named after the type) of the analysed crate that the reference tree does not
+    have — a tuple / parameter list given a name by a refactor"""
+    cache = getattr(crate, '_new_records', None)
+    if cache is None:
+        cache = {}
+        try:
+            crate._new_records = cache
+        except AttributeError:
+            pass
+    if path in cache:
+        return cache[path]
+    ok = False
+    adts = getattr(crate, 'adts', None) or {}
+    v = adts.get(path)
+    if v and len(v) == 1 and v[0].get('name') == path.split('::')[-1] and v[0].get('fields') and not str(v[0]['fields'][0]).isdigit() and _local_adt(crate, path):
+        import inline
+        kn = inline.known().get(('bin' if getattr(crate, 'is_bin', False) else 'lib') + '_adts')
+        if kn is not None and path not in kn and path.split('::')[-1] not in {k.split('::')[-1] for k in kn}:
+            ok = True
+            # ... unless it is a reference struct under a new name (one that is missing now and has the same field types)
+            mine = sorted(v[0].get('ftys', []))
+            for k, vs in kn.items():
+                if k not in adts and len(vs) == 1 and sorted(t for _, t in vs[0]) == mine and not k.startswith(('std::', 'core::', 'alloc::')):
+                    ok = False
+    cache[path] = ok
+    return ok
+
+
 def _local_adt(crate, name):
     """`name` is a struct / enum defined in the analysed crate itself"""
     adts = getattr(crate, 'adts', None) or {}
@@ -622,16 +662,20 @@ class Fn:
 
     def place_expr(self, pl, at=None, depth=0):
         base = self.local_expr(pl['l'], at, depth)
-        return self.project(base, pl['p'], at, depth, in_place=pl['l'] in self.field_mut)
+        return self.project(base, pl['p'], at, depth, in_place=pl['l'] in self.field_mut, base_ty=self.locals[pl['l']]['ty'])
 
-    def project(self, base, proj, at=None, depth=0, in_place=False):
+    def project(self, base, proj, at=None, depth=0, in_place=False, base_ty=None):
         e = base
+        first_field = True
         for p in proj:
             k = p['k']
             if k == 'deref':
                 e = e[1] if e[0] == 'ref' else ('deref', e)
             elif k == 'field':
                 nm = p['n'] or str(p['i'])
+                if first_field and base_ty is not None and p['n'] and _new_record(self.crate, _adt_of(base_ty)):
+                    nm = str(p['i'])        # a field of a new record type, read by position like a tuple component
+                first_field = False
                 if e[0] == 'bin' and e[1] in ('Add', 'Sub', 'Mul') and p['i'] == 0:
                     pass   # (value, overflow-flag).0 of a checked integer operation is the value
                 elif e[0] == 'agg' and e[1] in ('tuple',) and p['i'] < len(e[2]):
@@ -828,7 +872,9 @@ class Fn:
         if r == 'agg':
             kd = rv['kind']
             k = kd.get('k')
-            if k == 'adt':
+            if k == 'adt' and _new_record(self.crate, kd['path']):
+                kind = 'tuple'      # a struct the reference tree does not have, used as a record: its literal is the tuple of its fields
+            elif k == 'adt':
                 kind = 'adt:%s::%s' % (kd['path'], kd['variant'])
             elif k == 'closure':
                 kind = 'closure:' + kd['path']
@@ -913,7 +959,45 @@ class Fn:
     def where(self, bi=None, line=None):
         if line is None and bi is not None:
             line = self.line_of(bi)
-        return '%s:%s' % (self.file, line if line is not None else '?')
+        return Site('%s:%s' % (self.file, line if line is not None else '?'), self.name)
+
+    def shape(self):
+        """multiset of what the function (with its closures) does: callee names, arithmetic / comparison operators,
+        variants built — the coarse fingerprint used to tell a local edit from a restructuring"""
+        import collections
+        out = collections.Counter()
+        for g in [self] + (self.crate.closures_of(self) if hasattr(self.crate, 'closures_of') else []):
+            for bi in g.reach:
+                b = g.blocks[bi]
+                for st in b['stmts']:
+                    if st['s'] != 'assign':
+                        continue
+                    rv = st['rv']
+                    if rv['r'] == 'bin' and rv['op'] in SHAPE_OPS:
+                        out['op:' + rv['op']] += 1
+                    elif rv['r'] == 'agg' and rv['kind'].get('k') == 'adt' and rv['kind'].get('variant'):
+                        out['mk:' + str(rv['kind']['variant'])] += 1
+                t = b['term']
+                if t['t'] == 'call':
+                    nm = (t['callee'].get('path') or t['callee'].get('def') or '?').split('::')[-1]
+                    if nm not in SHAPE_IGNORE:
+                        out['call:' + nm] += 1
+        return out
+
+
+SHAPE_OPS = {'Add', 'Sub', 'Mul', 'Div', 'Rem', 'Lt', 'Le', 'Gt', 'Ge', 'Eq', 'Ne'}
+# protocol / plumbing calls that come and go with the spelling of a loop or a borrow
+SHAPE_IGNORE = {'into_iter', 'iter', 'iter_mut', 'next', 'deref', 'deref_mut', 'as_ref', 'as_mut', 'borrow', 'borrow_mut', 'clone', 'into', 'from', 'branch', 'from_residual',
+                'unwrap', 'expect', 'map', 'for_each', 'try_for_each', 'fold', 'zip', 'enumerate', 'collect', 'by_ref', 'new_v1', 'new_const', 'call', 'call_mut', 'call_once',
+                'index', 'index_mut', 'len', 'is_empty', 'from_output', 'ok_or', 'ok', 'eq', 'ne', 'size_hint', 'drop', 'as_slice', 'as_mut_slice', 'to_owned', 'panic_fmt', 'panic'}
+
+
+class Site(str):
+    """`file:line` of a verdict, remembering the function it was found in"""
+    def __new__(cls, text, fn=None):
+        o = super().__new__(cls, text)
+        o.fn = fn
+        return o
 
 
 SCALAR_TY = re.compile(r'^\[?(f64|f32|u\d+|i\d+|usize|isize|bool)(; \d+\])?$')
@@ -976,6 +1060,13 @@ class Crate:
         self.fns = {}
         import inline
         self.inline_stats = inline.inline_crate(j) if not os.environ.get('CFR_NO_INLINE') else {'inlined': 0, 'dropped': [], 'sites': []}
+        # the normalisation may have given moved items their reference paths back (whole fact set rewritten)
+        self.adts = j['adts']
+        for k_, v_ in self.adts.items():
+            if len(v_) == 1:
+                ADT_FIELDS.setdefault(k_, list(v_[0].get('fields', [])))
+        self.unsafe = j.get('unsafe', [])
+        self.impls = j.get('impls', [])
         for f in j['fns']:
             self.fns[f['name']] = Fn(f, self)
         self.graph = j.get('graph', {'nodes': [], 'edges': [], 'leaves': [], 'roots': []})
